@@ -178,16 +178,16 @@ func c02RunRaw(cs c02Case) (fs []F) {
 	if dyn.Types[t].Kind == dyn.Float && mcf.n > 0 {
 		// the two zeros: a write through either view is seen through the other by bit pattern
 		nz, pz := dyn.F(math.Copysign(0, -1)), dyn.F(0)
-		for _, pr := range [][2]dyn.Val{{pz, nz}, {nz, pz}} {
+		for _, pr := range [][2]dyn.Val{{pz, nz}, {nz, pz}, {dyn.F(1), dyn.F(math.NaN())}, {dyn.F(math.NaN()), dyn.F(-1)}} {
 			obs.SetSample(mcf.off, pr[0])
 			cf.SetSample(0, pr[1])
-			if g := obs.Sample(mcf.off); g.B != pr[1].B {
+			if g := obs.Sample(mcf.off); !valSame(g, pr[1]) {
 				fail("alias", "the parent storage holds %v, %v written through the child: the parent storage reads %v", pr[0], pr[1], g)
 				return
 			}
 			cf.SetSample(0, pr[0])
 			obs.SetSample(mcf.off, pr[1])
-			if g := cf.Sample(0); g.B != pr[1].B {
+			if g := cf.Sample(0); !valSame(g, pr[1]) {
 				fail("alias", "the child holds %v, %v written to the parent storage: the child reads %v", pr[0], pr[1], g)
 				return
 			}
@@ -267,6 +267,13 @@ func init() {
 			for t := 0; t < dyn.NB; t++ {
 				for _, r := range roots {
 					jobs = append(jobs, job{t, r})
+				}
+			}
+			for t := dyn.NB; t < len(dyn.Types); t++ { // named element types: the smallest roots
+				for _, r := range roots {
+					if r.C <= 2 && r.K <= 2 {
+						jobs = append(jobs, job{t, r})
+					}
 				}
 			}
 			var nodes, invalid int64
